@@ -441,6 +441,7 @@ func visitInstr(fr *frame, instr ssa.Instruction) continuation {
 		switch m := m.(type) {
 		case *omap:
 			fr.i.x.noteMap(m, 2)
+			key = fr.resolveStrKey(m, key)
 			m.set(key, v)
 		default:
 			panic(fmt.Sprintf("illegal map type: %T", m))
